@@ -16,7 +16,7 @@ META = {
     'props': 'Props/C20.v',
     'claimed': True,
     'level_text': ('Proof about a model of the path handling of geophires_x/__main__.py, GEOPHIRESv3.main (after fix 4b78654), '
-                   'Model.__init__, GeophiresXClient and the pathlib operations they use, with the simulation an arbitrary function: 23 '
+                   'Model.__init__, GeophiresXClient and the pathlib operations they use, with the simulation an arbitrary function: 25 '
                    'axiom-free Coq theorems - for every starting directory, installation directory, input and output argument the command '
                    'line writes the report to Path(out).absolute() of the starting directory and the JSON next to it as stem.json (the '
                    'chdir into the package does not leak), relative and absolute forms name the same files, the default is HDR.out/HDR.json '
@@ -495,6 +495,92 @@ def part_direct_relative(ctx, ok_inputs, direct, ex):
              'observed with the chdir target substituted by a scratch directory')
 
 
+# ------------------------------------------------------------------------------------------ (h) two runs onto the same output path
+def reports_in(text, refs):
+    """ids (1-based position in refs) of the case reports a file consists of; [99] when it is something else"""
+    if text is None:
+        return []
+    m = masked(text)
+    for combo in [[i] for i in range(len(refs))] + [[i, j] for i in range(len(refs)) for j in range(len(refs))]:
+        if m == ''.join(masked(refs[i]) for i in combo):
+            return [i + 1 for i in combo]
+    return [99]
+
+
+def cli_twice(ctx, idx, text_x, text_y, out):
+    root = Path(ctx.scratch, f'twice_{idx}', 'w')
+    root.mkdir(parents=True)
+    env = {k: v for k, v in os.environ.items() if not k.startswith('GEOPHIRES_X_VERIF')}
+    env['PYTHONPATH'] = str(fw.SRC)
+    codes = []
+    for name, text in (('x.txt', text_x), ('y.txt', text_y)):
+        (root / name).write_text(text)
+        p = subprocess.run([fw.PY, '-B', str(Path(fw.VERIF, 'tools', 'lib', 'cli_wrapper.py')), name] + ([out] if out else []),
+                           cwd=root, env=env, capture_output=True, text=True, timeout=600)
+        codes.append(p.returncode)
+    target = root / (out or 'HDR.out')
+    js = target.with_name(target.stem + '.json')
+    return {'path': str(target), 'exit': codes, 'report': target.read_text(encoding='UTF-8', errors='replace') if target.is_file() else None,
+            'json': js.read_text() if js.is_file() else None}
+
+
+def _twice_job(a):
+    """client (uncached, same from_file_path rewritten in between) or direct pipeline (same argv[2]) twice in one process"""
+    mode, text_x, text_y, scratch = a
+    from geophires_x import GEOPHIRESv3
+    from geophires_x_client import GeophiresInputParameters, GeophiresXClient
+    d = Path(scratch, f'twice_{mode}_{uuid.uuid4().hex[:8]}')
+    d.mkdir()
+    os.chdir(d)
+    sys.stdout = open(os.devnull, 'w')
+    f, target, err = d / 'in.txt', d / 'same.out', None
+    try:
+        for text in (text_x, text_y):
+            f.write_text(text)
+            if mode == 'client':
+                r = GeophiresXClient(enable_caching=False).get_geophires_result(GeophiresInputParameters(from_file_path=f))
+                target = Path(r.output_file_path)
+            else:
+                argv0, sys.argv = sys.argv, ['', str(f), str(target)]
+                try:
+                    GEOPHIRESv3.main(enable_geophires_logging_config=False)
+                finally:
+                    sys.argv = argv0
+                    os.chdir(d)
+    except BaseException as e:  # noqa
+        err = f'{type(e).__name__}: {e}'[:200]
+    os.chdir(scratch)
+    js = target.with_name(target.stem + '.json')
+    return {'path': str(target), 'error': err, 'report': target.read_text(encoding='UTF-8', errors='replace') if target.is_file() else None,
+            'json': js.read_text() if js.is_file() else None}
+
+
+def part_twice(ctx, ok_inputs, direct, ex):
+    good = [k for k, r in enumerate(direct[:len(ok_inputs)]) if r['ok'] and r['report'] and r['json']]
+    kx, ky = good[0], good[1]
+    tx, ty = ok_inputs[kx][1], ok_inputs[ky][1]
+    refs = [direct[kx]['report'], direct[ky]['report']]
+    with ThreadPoolExecutor(max_workers=4) as tp:
+        cli = list(tp.map(lambda a: cli_twice(ctx, a[0], tx, ty, a[1]), enumerate(['result.out', None][:ctx.n(2, 2)])))
+    inproc = list(ex.map(_twice_job, [(m, tx, ty, str(ctx.scratch)) for m in ('client', 'direct')]))
+    terms = []
+    for label, ob in [('cli:result.out', cli[0]), ('cli:default', cli[1]), ('client', inproc[0]), ('direct', inproc[1])]:
+        ids = reports_in(ob['report'], refs)
+        terms.append(f'report_file_check [({qconv.coq_bytes(ob["path"])}, 1%N); ({qconv.coq_bytes(ob["path"])}, 2%N)] {qconv.coq_bytes(ob["path"])} '
+                     + '[' + '; '.join(f'{i}%N' for i in ids) + ']')
+        ctx.count('two-runs-same-path', evaluations=1, nontrivial_keys=[label], entry={label.split(':')[0]: 1})
+        json_ok = ob['json'] is not None and json.loads(ob['json']) == json.loads(direct[ky]['json'])
+        if ids != [2] or not json_ok:
+            ctx.violate('property', f'report-file:second-run-onto-existing-path:{label.split(":")[0]}',
+                        f'{label}: two runs (inputs {ok_inputs[kx][0]}, then {ok_inputs[ky][0]}) onto the same output path: the file is not exactly the '
+                        'report of the second input (or report and JSON disagree)',
+                        inp={'part': 'twice', 'label': label, 'text_x': tx, 'text_y': ty}, expected={'reports_in_file': [2], 'json': 'of the second input'},
+                        observed={'reports_in_file': ids, 'json_is_second': json_ok, 'error': ob.get('error') or ob.get('exit')})
+    for i in fw.kernel_bools(ctx, 'twice', ['Model.CliPaths'], terms, open_scope='string_scope'):
+        ctx.violate('corr', 'report-file:model-disagrees', 'Coq model after_runs (truncate-then-write) and the observed report file disagree',
+                    inp={'part': 'twice', 'label': ['cli:result.out', 'cli:default', 'client', 'direct'][i], 'text_x': tx, 'text_y': ty})
+
+
 # ------------------------------------------------------------------------------------------ (g) histories, Model(input_file=)
 def _history_job(a):
     """one process, one working directory: a sequence of GeophiresXClient calls (ok / exception / bare sys.exit); the working
@@ -771,6 +857,7 @@ def correspondence(ctx, proofs_ok=True):
         part_direct_relative(ctx, ok_inputs, direct, ex)
         part_hip(ctx, ex)
         part_histories(ctx, ok_inputs, direct, ex)
+        part_twice(ctx, ok_inputs, direct, ex)
 
 
 def replay(ctx, data):
@@ -848,6 +935,12 @@ def replay(ctx, data):
         bad = any(v.kind != 'property' or not v.key.startswith('hip-ra-x-cli:') for v in ctx.violations[before:])
         print('HIP-RA-X part re-run:', [v.key for v in ctx.violations[before:]])
         before = len(ctx.violations)
+    elif part == 'twice':
+        refs = runner.run_many(ctx, [inp['text_x'], inp['text_y']], want_json=True)
+        with ProcessPoolExecutor(max_workers=2, initializer=runner._init_worker, initargs=(str(ctx.scratch),)) as ex:
+            part_twice(ctx, [('x', inp['text_x']), ('y', inp['text_y'])], refs, ex)
+        print('violations on re-run:', [v.key for v in ctx.violations[before:]])
+        bad = False
     elif part in ('history', 'model-kw'):
         ok_text = inp.get('ok_text', BASE + 'End-Use Option, 2\n')
         ref = runner.run_many(ctx, [ok_text])[0]
